@@ -1,7 +1,7 @@
 (* Proofs/C06Proofs.v — canonical form, order independence as a corollary of denotational correctness. *)
 From Coq Require Import List Arith Lia Bool Permutation ZArith.
-From PV Require Import Base.Index Np.NpZ Np.Array Gen.GenUtils Model.Sparse Model.Harness Model.C03Ops Model.C03AsIs Model.C06Ops
-                       Proofs.C03Lemmas Proofs.C03Proofs Proofs.C03AsIsProofs.
+From PV Require Import Base.Index Np.NpZ Np.Array Gen.GenUtils Model.Sparse Model.Harness Model.C03Ops Model.C03Gen Model.C06Ops
+                       Proofs.C03Lemmas Proofs.C03Proofs Proofs.C03GenProofs.
 Import ListNotations.
 
 Section C06.
@@ -90,15 +90,44 @@ Qed.
 
 End C06.
 
-(* the code as it is: sptensor.__mul__ (sparse, sparse) depends on the stored order (finding A-06) *)
-Local Open Scope Z_scope.
-Definition wA' : sparse Z := mkSp [2; 2]%nat [[0; 0]; [1; 1]]%nat [2; 3].
-Theorem mul_asis_order_dependent :
-  Permutation (entries wA) (entries wA') /\
-  exists R R', impl_mul_asis wA wB = Ok R /\ impl_mul_asis wA' wB = Ok R' /\ zden_sp R [0; 0]%nat <> zden_sp R' [0; 0]%nat.
+(* the same for an operation that may fail (transliterations over the generated helpers return `res`) *)
+Section Res.
+Context {V : Type} (v0 : V) (isz : V -> bool).
+Hypothesis isz_spec : forall v, isz v = true <-> v = v0.
+Notation den := (den_sp v0).
+Notation wf := (wf_sp isz).
+Notation canon := (canon v0 isz).
+
+Definition indep2_res (adm : sparse V -> Prop) (op : sparse V -> sparse V -> res (sparse V)) : Prop :=
+  forall A A' B B', wf A -> wf A' -> wf B -> wf B' -> adm A ->
+    sshape A' = sshape A -> sshape B = sshape A -> sshape B' = sshape A ->
+    Permutation (entries A) (entries A') -> Permutation (entries B) (entries B') ->
+    exists R R', op A B = Ok R /\ op A' B' = Ok R' /\ wf R /\ wf R' /\
+                 canon R = canon R' /\ Permutation (entries R) (entries R').
+
+Theorem order_indep2_res (adm : sparse V -> Prop) (op : sparse V -> sparse V -> res (sparse V)) (f : V -> V -> V) :
+  (forall A A', sshape A' = sshape A -> adm A -> adm A') ->
+  (forall A B, wf A -> wf B -> sshape B = sshape A -> adm A ->
+     exists R, op A B = Ok R /\ wf R /\ sshape R = sshape A /\
+               forall i, inb (sshape A) i = true -> den R i = f (den A i) (den B i)) ->
+  indep2_res adm op.
 Proof.
-  split; [apply perm_swap|]. eexists; eexists. split; [reflexivity|]. split; [reflexivity|]. vm_compute. discriminate.
+  intros Hadm Hop A A' B B' WA WA' WB WB' HA SA SB SB' PA PB.
+  destruct (Hop A B WA WB SB HA) as (R & E1 & W1 & S1 & D1).
+  destruct (Hop A' B' WA' WB') as (R' & E2 & W2 & S2 & D2); [congruence|eauto|].
+  exists R, R'. split; [exact E1|]. split; [exact E2|]. split; [exact W1|]. split; [exact W2|].
+  assert (E : forall i, inb (sshape R) i = true -> den R i = den R' i).
+  { intros i Hi. rewrite S1 in Hi. rewrite D1 by auto. rewrite D2 by (now rewrite SA).
+    rewrite (den_perm v0 A A' (wf_sp_struct isz A WA) PA i).
+    now rewrite (den_perm v0 B B' (wf_sp_struct isz B WB) PB i). }
+  split.
+  - apply (canon_eq v0 isz); auto. congruence.
+  - apply (canon_unique v0 isz isz_spec); auto. intros i.
+    destruct (inb (sshape R) i) eqn:Hi; [now apply E|].
+    rewrite (den_out v0 R i); [|apply (wf_sp_struct isz); auto|auto].
+    rewrite (den_out v0 R' i); [auto|apply (wf_sp_struct isz); auto|congruence].
 Qed.
+End Res.
 
 (* ------------------------------------------------------------------------------------------ *)
 (* instances: every modelled sparse-returning operator is order-independent and well-formed     *)
@@ -209,5 +238,33 @@ Proof.
     destruct (inb (sshape (impl_cmp_dense v0 one cmp A T)) i) eqn:Hi; [now apply E|].
     rewrite (den_out v0 (impl_cmp_dense v0 one cmp A T) i); [|apply (wf_sp_struct isz); auto|auto].
     rewrite (den_out v0 (impl_cmp_dense v0 one cmp A' T) i); [auto|apply (wf_sp_struct isz); auto|congruence].
+Qed.
+
+(* the transliterations over the GENERATED row helpers (order >= 1) *)
+Definition has_modes (A : sparse V) : Prop := sshape A <> [].
+Lemma has_modes_shape (A A' : sparse V) : sshape A' = sshape A -> has_modes A -> has_modes A'.
+Proof. unfold has_modes. congruence. Qed.
+
+Theorem indep_mul_gen : (forall x y, x <> v0 -> y <> v0 -> vmul x y <> v0) ->
+  indep2_res v0 isz has_modes (impl_mul_gen v0 vmul).
+Proof.
+  intros Hzd. apply (order_indep2_res v0 isz isz_spec _ _ vmul has_modes_shape). intros A B WA WB Hs HA.
+  destruct (impl_mul_gen_correct v0 isz isz_spec vmul vmul_0_l vmul_0_r A B WA WB Hs HA) as (R & E & _ & S & D & W).
+  exists R. split; [exact E|]. split; [now apply W|]. split; [exact S|]. intros i _. apply D.
+Qed.
+
+Theorem indep_eq_gen (veqb : V -> V -> bool) : (forall a b, veqb a b = true <-> a = b) ->
+  indep2_res v0 isz has_modes (impl_eq_gen v0 one veqb).
+Proof.
+  intros Hv. apply (order_indep2_res v0 isz isz_spec _ _ (fun a b => bval v0 one (veqb a b)) has_modes_shape).
+  intros A B WA WB Hs HA. exact (impl_eq_gen_correct v0 isz isz_spec one one_nz veqb Hv A B WA WB Hs HA).
+Qed.
+
+Theorem indep_cmp_gen cmp : indep2_res v0 isz has_modes (impl_cmp_gen v0 one cmp).
+Proof.
+  apply (order_indep2_res v0 isz isz_spec _ _ (fun a b => bval v0 one (cmp a b)) has_modes_shape).
+  intros A B WA WB Hs HA. exists (impl_cmp v0 one cmp A B). split.
+  - apply impl_cmp_gen_eq; auto using (wf_sp_struct isz).
+  - exact (impl_cmp_correct v0 isz isz_spec one one_nz cmp A B WA WB Hs).
 Qed.
 End Instances.
